@@ -109,6 +109,7 @@ type Env struct {
 	mtable  *maglev.Table
 	Rng     *hx.Rng
 	n       int
+	idx     map[string]int
 }
 
 var envs = map[string]*Env{}
@@ -188,13 +189,14 @@ func (e *Env) SetConn(id int, v int) {
 }
 
 func (e *Env) indexOf(addr string) int {
-	for i, h := range e.Cur {
-		if Addr(h.ID) == addr {
-			return i
-		}
+	if i, ok := e.idx[addr]; ok {
+		return i
 	}
 	return -1
 }
+
+// IndexOf returns the position of a host in the current host set (-1: not there).
+func (e *Env) IndexOf(h types.Host) int { return e.indexOf(h.AddressString()) }
 
 func ints(xs []int64) string {
 	if len(xs) == 0 {
@@ -229,6 +231,10 @@ func (e *Env) Replace(hs []HostSpec) string {
 	}
 	e.Cur = append([]HostSpec{}, hs...)
 	e.n = len(hs)
+	e.idx = map[string]int{}
+	for i, h := range hs {
+		e.idx[Addr(h.ID)] = i
+	}
 	old := cluster.VerifSetRRFactoryRand(e.facRand)
 	e.FacSrc.Used = nil
 	e.Cl.UpdateHosts(cluster.NewHostSet(hosts))
@@ -514,6 +520,8 @@ func randomCase(c *hx.Ctx) {
 }
 
 func Run(c *hx.Ctx) {
+	// hx.NewRng(seed) yields the same splitmix sequence shifted by the seed; hash the seed so that seeds are unrelated
+	c.Rng = c.Rng.Fork()
 	log.DefaultLogger.SetLogLevel(log.FATAL)
 	log.Proxy.SetLogLevel(log.FATAL)
 	maxN := 6
